@@ -249,6 +249,44 @@ pub fn run_c07(ctx: &Ctx) -> i32 {
             }
             _ => {}
         }
+        // Planted: at one path three file versions that merge cleanly by
+        // content only, plus the same directory once as a side and once as a
+        // base (it cancels only after simplification), in trees that differ
+        // elsewhere so that they do not cancel at the root.
+        if n_terms >= 5 && rng.chance(1, 5) {
+            let (file_path, dir_child) = *rng.pick(&[("d", "d/e"), ("a", "a/b"), ("k", "k/l"), ("a", "a/b/c")]);
+            let lines: Vec<Vec<u8>> = (0..6).map(|i| format!("u{i}").into_bytes()).collect();
+            let version = |rng: &mut Rng, changed: Option<usize>| -> Entry {
+                let mut l = lines.clone();
+                if let Some(i) = changed {
+                    l[i] = format!("changed{i}").into_bytes();
+                }
+                Entry::File { content: r#gen::join_lines(rng, &l, r#gen::Eol::Lf, true), exec: false }
+            };
+            let exec_dir = rng.bool();
+            let dir_entry = Entry::File { content: b"inside\n".to_vec(), exec: exec_dir };
+            // positions: adds are even, removes odd
+            let mut slots = [0usize, 1, 2, 3, 4];
+            if rng.bool() {
+                slots = [4, 1, 2, 3, 0];
+            }
+            if rng.bool() {
+                slots.swap(1, 3);
+            }
+            let f1 = version(rng, Some(0));
+            let fb = version(rng, None);
+            let f2 = version(rng, Some(5));
+            tree_insert(&mut models[slots[0]], file_path, f1);
+            tree_insert(&mut models[slots[1]], dir_child, dir_entry.clone());
+            tree_insert(&mut models[slots[2]], dir_child, dir_entry);
+            tree_insert(&mut models[slots[3]], file_path, fb);
+            tree_insert(&mut models[slots[4]], file_path, f2);
+            // keep the two directory terms from cancelling at the root
+            if models[slots[1]] == models[slots[2]] {
+                tree_insert(&mut models[slots[2]], "f", Entry::File { content: b"only here\n".to_vec(), exec: false });
+            }
+            ctx.count("planted_cancelling_directory_between_mergeable_files");
+        }
         let second_level = rng.chance(1, 3);
         let extra: Vec<TreeModel> = (0..2).map(|_| mutate_tree(rng, &base, &pool, 3)).collect();
         let seeds: Vec<u64> = (0..3).map(|_| rng.next_u64()).collect();
